@@ -402,3 +402,106 @@ Example C09_required_nonvacuous :
   (* a defaulted property that is not listed comes back listed *)
   final_required (Some [s2p "b"]) props = Some (Some [s2p "b"]).
 Proof. vm_compute. repeat split; reflexivity. Qed.
+
+(* ------------------------------------------------------------------------------------------------
+   The generator's own source.  Gen/CodegenSrc.v is the translation, GENERATED on every run by
+   harness/genmods/py2v_codegen.py, of convert_to_field_code, _convert_field_to_schema_code_internal,
+   _handle_schema_default_to_code, schema_to_struct_code, schema_definitions_to_code and every
+   *Mapper.get_paramlist_from_schema of typedpy/json_schema/json_schema_mapping.py.  For every schema
+   document of the model's fragment (Schema/CodegenBridge.v: field_of / class_of / classes_of answer
+   Some) it returns exactly the text of the model's token list under the generated site table, so the
+   theorems above about class_toks / defs_toks are about what the source emits now. *)
+From TP Require Import Base.PyOpsCodegen Gen.CodegenSrc Schema.CodegenBridge Schema.CodegenSrcProofs.
+
+Theorem C09_src_struct_code : forall O n name sch c toks,
+    class_of O n name sch = Some c -> class_toks c = Some toks ->
+    schema_to_struct_code O (2 * n + 1) (PStr name) sch (PList []) = Ok (PStr (rt O toks)).
+Proof. exact schema_to_struct_code_bridge. Qed.
+
+Theorem C09_src_field_code : forall O n sch f,
+    field_of O n sch = Some f ->
+    convert_to_field_code O (2 * n + 1) sch (PList []) = Ok (PStr (rt O (field_toks f))).
+Proof. exact convert_to_field_code_bridge. Qed.
+
+Theorem C09_src_definitions_code : forall O n defs cs toks,
+    classes_of O n defs = Some cs -> defs_toks joiner_v1 cs = Some toks ->
+    schema_definitions_to_code O (2 * n + 1) defs (PList []) = Ok (PStr (rt O toks)).
+Proof. exact schema_definitions_to_code_bridge. Qed.
+
+Theorem C09_src_default : forall O rec ps kv d,
+    default_of O kv = Some d ->
+    exists dps, handle_schema_default_to_code O rec (PList ps) (PDict kv) = Ok (PTuple [PList (ps ++ dps)])
+                /\ ptexts O dps = Ok (map (rt O) (default_param d)).
+Proof. exact handle_default_ok. Qed.
+
+Theorem C09_src_paramlist_String : forall O rec kv nums pat,
+    nums_of O kv string_keys = Some nums -> pat_of kv = Some pat ->
+    exists ps, StringMapper__get_paramlist_from_schema O rec (PDict kv) = Ok (PList ps)
+               /\ ptexts O ps = Ok (map (rt O) (model_params (FString nums pat None))).
+Proof. exact StringMapper_paramlist. Qed.
+
+Theorem C09_src_paramlist_Number : forall O rec kv nums ctor,
+    nums_of O kv number_keys = Some nums ->
+    exists ps, NumberMapper__get_paramlist_from_schema O rec (PDict kv) = Ok (PList ps)
+               /\ ptexts O ps = Ok (map (rt O) (model_params (FNumeric ctor nums None))).
+Proof. exact NumberMapper_paramlist. Qed.
+
+Theorem C09_src_paramlist_Boolean : forall O rec kv,
+    exists ps, BooleanMapper__get_paramlist_from_schema O rec (PDict kv) = Ok (PList ps)
+               /\ ptexts O ps = Ok (map (rt O) (model_params (FBoolean None))).
+Proof. exact BooleanMapper_paramlist. Qed.
+
+Theorem C09_src_paramlist_Enum : forall O rec kv l ls,
+    dict_get kv (PStr (s2p "enum")) = Some (PList l) -> mapO (lit_of O) l = Some ls ->
+    exists ps, EnumMapper__get_paramlist_from_schema O rec (PDict kv) = Ok (PList ps)
+               /\ ptexts O ps = Ok (map (rt O) (model_params (FEnum ls None))).
+Proof. exact EnumMapper_paramlist. Qed.
+
+Theorem C09_src_paramlist_Array : forall O n rec kv flags k fs,
+    rec_spec O n rec ->
+    nums_of O kv array_keys = Some flags -> items_of (field_of O n) (getdef kv (s2p "items") PNone) = Some (k, fs) ->
+    exists ps, ArrayMapper__get_paramlist_from_schema O rec (PDict kv) = Ok (PList ps)
+               /\ ptexts O ps = Ok (map (rt O) (model_params (FArray flags k fs None))).
+Proof. exact ArrayMapper_paramlist. Qed.
+
+Theorem C09_src_paramlist_MultiField : forall O n rec k0 v0 kv' k fs ctor,
+    rec_spec O n rec -> items_of (field_of O n) v0 = Some (k, fs) ->
+    exists ps, MultiFieldMapper__get_paramlist_from_schema O rec (PDict ((k0, v0) :: kv')) = Ok (PList ps)
+               /\ ptexts O ps = Ok (map (rt O) (model_params (FMulti ctor k fs None))).
+Proof. exact MultiFieldMapper_paramlist. Qed.
+
+Theorem C09_src_paramlist_StructureReference : forall O n rec kv pkv req props,
+    rec_spec O n rec ->
+    dict_get kv (PStr (s2p "properties")) = Some (PDict pkv) ->
+    required_of (dict_get kv (PStr (s2p "required"))) = Some req ->
+    mapO (prop_of (field_of O n)) pkv = Some props ->
+    exists ps, StructureReferenceMapper__get_paramlist_from_schema O rec (PDict kv) = Ok (PList ps)
+               /\ ptexts O ps = Ok (map (rt O) (model_params (FObject (closed_of kv) req props None))).
+Proof. exact StructureReferenceMapper_paramlist. Qed.
+
+Theorem C09_src_paramlist_Map : forall O n rec kv value,
+    rec_spec O n rec ->
+    py_truthy (getdef kv (s2p "patternProperties") PNone) = false ->
+    map_value_of (field_of O n) kv = Some value ->
+    exists ps, MapMapper__get_paramlist_from_schema O rec (PDict kv) = Ok (PList ps)
+               /\ ptexts O ps = Ok (map (rt O) (model_params (FMap value None))).
+Proof. exact MapMapper_paramlist. Qed.
+
+Print Assumptions C09_src_struct_code.
+Print Assumptions C09_src_field_code.
+Print Assumptions C09_src_definitions_code.
+Print Assumptions C09_src_default.
+Print Assumptions C09_src_paramlist_String.
+Print Assumptions C09_src_paramlist_Number.
+Print Assumptions C09_src_paramlist_Boolean.
+Print Assumptions C09_src_paramlist_Enum.
+Print Assumptions C09_src_paramlist_Array.
+Print Assumptions C09_src_paramlist_MultiField.
+Print Assumptions C09_src_paramlist_StructureReference.
+Print Assumptions C09_src_paramlist_Map.
+
+(* the fragment is inhabited, and on this document the generated function computes typedpy's own output *)
+Example C09_src_nonvacuous :
+  exists c toks, class_of O_sample 3 (s2p "A") sample_schema = Some c /\ class_toks c = Some toks
+                 /\ rt O_sample toks = sample_text.
+Proof. exact fragment_inhabited. Qed.
